@@ -2,7 +2,7 @@
 S: TLC checks spec/BrieImpl.tla (SparseBitMap<BITS>::set = SparseArray::getLeaf + bit CAS, one action per atomic access, BITS = 1,
    indices 0..15) for all interleavings of 2 threads x 2 inserts and 3 threads x 1 insert (thorough: larger alphabets, 3 threads
    with 2+1+1 inserts): no lost element, root info consistent whenever the version is even, first = minimum leaf, parents set, one
-   success per element; termination under weak fairness.
+   success per element; (thorough) termination under weak fairness.
 R: TLC's state graph is dumped; walks covering every transition are replayed on the real SparseBitMap<1> under the cooperative
    scheduler and root/levels/offset/first/tree shape/yield point/results are compared after every step (deviation = MODEL-DRIFT).
 T: API histories (insert call/return of every thread, then contains/find/size/iteration/getBoundaries<k>/lower/upper bound/
@@ -250,8 +250,8 @@ def gen_jobs(tier, rng):
         sysprogs += [(4, [[[1, 2, 3, 4]], [[1, 2, 3, 5]]]), (1, [[[IMAX], [0]], [[63], [64]]]), (2, [[[0, 1], [4096, 1]], [[4096, 1], [0, 1]]]),
                      (3, [[[0, 0, 0]], [[0, 0, 0]], [[0, 0, 1]]])]
     for dim, progs in sysprogs:
-        fam["systematic"].append("T %d n %s P2:%d" % (dim, fmt_progs(progs), 100 if q else 800))
-        fam["systematic"].append("T %d h %s P1:%d" % (dim, fmt_progs(progs), 25 if q else 150))
+        fam["systematic"].append("T %d n %s P2:%d" % (dim, fmt_progs(progs), 60 if q else 800))
+        fam["systematic"].append("T %d h %s P1:%d" % (dim, fmt_progs(progs), 15 if q else 150))
     # real-thread stress: 2..8 threads, larger programs
     for k in range(30 if q else 300):
         dim = rng.choice([1, 2, 3, 4])
@@ -383,7 +383,7 @@ def run(tier, replay_path=None):
     phases = res.cov.setdefault("phase_seconds", {})
     t0 = time.time()
     # S
-    cfgs = ["MC_BrieQ22.cfg", "MC_BrieQ31.cfg", "MC_BrieL.cfg"] + ([] if q else ["MC_BrieM22.cfg", "MC_BrieT31.cfg", "MC_BrieT32.cfg", "MC_BrieT22.cfg"])
+    cfgs = ["MC_BrieQ22.cfg", "MC_BrieQ31.cfg"] + ([] if q else ["MC_BrieL.cfg", "MC_BrieM22.cfg", "MC_BrieT31.cfg", "MC_BrieT32.cfg", "MC_BrieT22.cfg"])
     if os.environ.get("VERIF_SKIP_MC"):      # developer aid for mutation experiments on a scratch copy (the model does not
         cfgs = []                            # depend on the repository); MANIFEST commands never set it
     for cfg in cfgs:
@@ -395,7 +395,7 @@ def run(tier, replay_path=None):
     phases["S model checking"] = round(time.time() - t0, 1); t0 = time.time()
     # R (its executions are histories of an arity-1 tuple set as well: they go through T)
     allh = []
-    rh, rlines = replay(res, wd, "MC_BrieRq.cfg" if q else "MC_BrieRt.cfg", drv, max_walks=500 if q else 5000)
+    rh, rlines = replay(res, wd, "MC_BrieRq.cfg" if q else "MC_BrieRt.cfg", drv, max_walks=300 if q else 5000)
     for h in rh:
         h.update(job=rlines[h["line"]], fam="replay", allow_known=False, tolerant=False); allh.append(h)
     phases["R replay"] = round(time.time() - t0, 1)
